@@ -3,6 +3,7 @@ package main
 import (
 	"fmt"
 	"go/ast"
+	"go/constant"
 	"go/token"
 	"go/types"
 	"sort"
@@ -414,13 +415,23 @@ func complementOK(a, b string, numeric bool) (bool, string) {
 
 func ruleCmp(c *Ctx) {
 	vm := buildVMModel(c)
-	info := vm.pkg.TypesInfo
+	sem := newCmpSem(c)
+	if sem.exec == nil || sem.valueT == nil || sem.opcodeT == nil || len(sem.entry) < 50 {
+		c.undecided("anchor:execute-ssa", token.NoPos, "interp.execute / its opcode dispatch is not resolvable on the SSA form (%d handler blocks)", len(sem.entry))
+		return
+	}
 	texts := tokenTexts(c)
 	t2o := tokenToOpcode(c)
 	c.atLeast("token texts", len(texts), 40)
 	cmpTokens := []string{"EQUALS", "NOT_EQUALS", "LESS", "LTE", "GREATER", "GTE"}
 	plainOf := map[string]string{} // token -> plain opcode
 	facts := map[string]*cmpFacts{}
+	posOfOp := func(op string) token.Pos {
+		if cc := vm.clauses[op]; cc != nil {
+			return cc.Pos()
+		}
+		return token.NoPos
+	}
 	n := 0
 	for _, tk := range cmpTokens {
 		op := t2o[tk]
@@ -429,119 +440,98 @@ func ruleCmp(c *Ctx) {
 			continue
 		}
 		plainOf[tk] = op
-		cc := vm.clauses[op]
-		if cc == nil {
+		if vm.clauses[op] == nil {
 			c.bad("handler:"+op, token.NoPos, "no VM clause for %s", op)
 			continue
 		}
-		f := analyseCmpClause(info, cc)
+		f := sem.facts(vm, op)
 		facts[op] = f
 		n++
 		key := "handler:" + op
 		want := texts[tk]
 		switch {
 		case len(f.problems) > 0:
-			c.bad(key, cc.Pos(), "%s: %s", op, strings.Join(f.problems, "; "))
+			c.bad(key, posOfOp(op), "%s: %s", op, strings.Join(f.problems, "; "))
 		case f.strOp != want || f.numOp != want:
-			c.bad(key, cc.Pos(), "%s implements AWK %q but applies %q to strings and %q to numbers", op, want, f.strOp, f.numOp)
+			c.bad(key, posOfOp(op), "%s implements AWK %q but applies %q to strings and %q to numbers", op, want, f.strOp, f.numOp)
 		default:
-			c.ok(key, cc.Pos(), "%s (token %s %q): both branches use %q on (left,right); string branch iff either is a true string", op, tk, want, want)
+			c.ok(key, posOfOp(op), "%s (token %s %q): evaluated over all 48 combinations of operand kinds and orders, it applies %q to (left,right), as strings iff either is a true string", op, tk, want, want)
 		}
 	}
-	// fused jumps: from compiler.condition
-	fd := c.funcDecl("internal/compiler", "compiler.condition")
-	if fd == nil {
-		c.undecided("anchor:condition", token.NoPos, "compiler.condition not found")
-		return
-	}
-	cinfo := c.pkg("internal/compiler").TypesInfo
-	pairs := 0
-	ast.Inspect(fd.Body, func(nd ast.Node) bool {
-		cc, ok := nd.(*ast.CaseClause)
-		if !ok || cc.List == nil {
-			return true
-		}
-		var toks []string
-		for _, e := range cc.List {
-			if t := constName(cinfo, e); t != "" && texts[t] != "" {
-				toks = append(toks, t)
+	// fused jumps: what compiler.condition returns for each comparison token and polarity
+	tokVals := map[string]int64{}
+	for _, k := range c.constsOfType("lexer", "Token") {
+		for _, tk := range cmpTokens {
+			if k.Name() == tk {
+				if v, ok := constant.Int64Val(k.Val()); ok {
+					tokVals[tk] = v
+				}
 			}
 		}
-		if len(toks) == 0 {
-			return true
-		}
-		// returns in this clause: jumpOp(A, B)  or plain A
-		for _, s := range cc.Body {
-			ast.Inspect(s, func(x ast.Node) bool {
-				ret, ok := x.(*ast.ReturnStmt)
-				if !ok || len(ret.Results) != 1 {
-					return true
-				}
-				for _, tk := range toks {
-					key := "fused:" + tk
-					call, isCall := ret.Results[0].(*ast.CallExpr)
-					if plain := constName(cinfo, ret.Results[0]); !isCall && plain != "" {
-						// one-sided fusion: `if invert { break }` must precede, so only the normal polarity uses it
-						guarded := false
-						for _, b := range cc.Body {
-							if is, ok := b.(*ast.IfStmt); ok && isIdent(is.Cond, "invert") && len(is.Body.List) == 1 {
-								if br, ok := is.Body.List[0].(*ast.BranchStmt); ok && br.Tok == token.BREAK && is.Pos() < ret.Pos() {
-									guarded = true
-								}
-							}
-						}
-						pairs++
-						fn := handlerCmp(vm, info, plain)
-						want := texts[tk]
-						switch {
-						case !guarded:
-							c.bad(key+":complement", ret.Pos(), "%s returns %s for both polarities of the condition", tk, plain)
-						case fn == nil || len(fn.problems) > 0:
-							c.bad(key, ret.Pos(), "fused jump handler %s is not a recognisable comparison handler", plain)
-						case fn.strOp != want || fn.numOp != want:
-							c.bad(key+":normal", ret.Pos(), "%s is compiled to %s, whose handler applies %q/%q instead of %q", tk, plain, fn.strOp, fn.numOp, want)
-						default:
-							c.ok(key+":complement", ret.Pos(), "%s: fused to %s (%q) only when not inverted; the inverted form is evaluated unfused, so the two polarities are complements by construction", tk, plain, want)
-						}
-						continue
+	}
+	dec, derr := conditionDecisions(c, vm, tokVals)
+	if derr != "" {
+		c.undecided("anchor:condition", token.NoPos, "%s", derr)
+		return
+	}
+	cpos := token.NoPos
+	if fn := c.ssaFunc("internal/compiler", "compiler.condition"); fn != nil {
+		cpos = fn.Pos()
+	}
+	pairs := 0
+	for _, tk := range cmpTokens {
+		want := texts[tk]
+		for _, pol := range []string{"normal", "inverted"} {
+			key := "fused:" + tk + ":" + pol
+			ops := dec[tk+"/"+pol]
+			if len(ops) == 0 {
+				c.undecided(key, cpos, "condition() returns nothing for %s (%s)", tk, pol)
+				continue
+			}
+			good, detail := true, ""
+			for _, op := range ops {
+				switch {
+				case op == "?":
+					good, detail = false, "a value that is not an opcode constant"
+				case (op == "JumpTrue" && pol == "normal") || (op == "JumpFalse" && pol == "inverted"):
+					// unfused: the comparison is evaluated by its plain handler and the truth value tested
+				case op == "JumpTrue" || op == "JumpFalse":
+					good, detail = false, op+" for the "+pol+" polarity"
+				default:
+					tab, problems := sem.table(vm, op)
+					if len(problems) > 0 {
+						good, detail = false, "fused jump handler "+op+": "+strings.Join(problems, "; ")
+						break
 					}
-					if !isCall || len(call.Args) != 2 {
-						c.undecided(key, ret.Pos(), "return in condition() for %s is not of the form jumpOp(normal, inverted)", tk)
-						continue
-					}
-					normal, inverted := constName(cinfo, call.Args[0]), constName(cinfo, call.Args[1])
 					pairs++
-					want := texts[tk]
-					fn, fi := handlerCmp(vm, info, normal), handlerCmp(vm, info, inverted)
-					if fn == nil || fi == nil || len(fn.problems) > 0 || len(fi.problems) > 0 {
-						c.bad(key, ret.Pos(), "fused jump handlers %s/%s are not recognisable comparison handlers", normal, inverted)
-						continue
-					}
-					if fn.strOp != want || fn.numOp != want {
-						c.bad(key+":normal", ret.Pos(), "%s is compiled to %s, whose handler applies %q/%q instead of %q", tk, normal, fn.strOp, fn.numOp, want)
-						continue
-					}
-					// same predicate as the plain sibling
-					if pf := facts[plainOf[tk]]; pf != nil && (pf.strOp != fn.strOp || pf.numOp != fn.numOp) {
-						c.bad(key+":sibling", ret.Pos(), "%s and its plain sibling %s compute different predicates", normal, plainOf[tk])
-						continue
-					}
-					okS, missS := complementOK(fn.strOp, fi.strOp, false)
-					okN, missN := complementOK(fn.numOp, fi.numOp, true)
-					switch {
-					case !okS:
-						c.bad(key+":complement", ret.Pos(), "inverted jump %s is not the complement of %s on strings (outcome %q)", inverted, normal, missS)
-					case !okN:
-						c.bad(key+":complement", ret.Pos(), "for %s the inverted jump %s (%q) is not the complement of %s (%q) on numbers: outcome %q (NaN operand) is in neither or both, so `if (a %s b)` and `if ((a %s b))` disagree", tk, inverted, fi.numOp, normal, fn.numOp, missN, want, want)
-					default:
-						c.ok(key+":complement", ret.Pos(), "%s: %s (%q) and inverted %s (%q) are complements over {lt,eq,gt} and {lt,eq,gt,unordered}", tk, normal, fn.numOp, inverted, fi.numOp)
+					for sc, taken := range tab {
+						holds := cmpApply(want, sc.nOut)
+						if sc.lStr || sc.rStr {
+							holds = cmpApply(want, sc.sOut)
+						}
+						wantTaken := holds
+						if pol == "inverted" {
+							wantTaken = !holds
+						}
+						if taken != wantTaken {
+							good = false
+							kind, out := "numbers", sc.nOut
+							if sc.lStr || sc.rStr {
+								kind, out = "strings", sc.sOut
+							}
+							detail = fmt.Sprintf("%s jumps=%v for %s with order %q (%s operand when unordered), but `a %s b` is %v there", op, taken, kind, out, "NaN", want, holds)
+							break
+						}
 					}
 				}
-				return true
-			})
+			}
+			if good {
+				c.ok(key, cpos, "%s, %s polarity: condition() returns %v - exactly `a %s b`%s over all operand kinds and orders (incl. unordered)", tk, pol, ops, want, map[string]string{"normal": "", "inverted": " negated"}[pol])
+			} else {
+				c.bad(key, cpos, "for %s (%s polarity) condition() can return %v: %s, so `if (a %s b)` and its negation/loop forms disagree with the comparison itself", tk, pol, ops, detail, want)
+			}
 		}
-		return true
-	})
+	}
 	c.atLeast("comparison handlers", n, 6)
 	c.atLeast("fused jump pairs", pairs, 2)
 	// every Jump<cmp> handler must equal its plain sibling even if condition() no longer pairs it
@@ -551,18 +541,18 @@ func ruleCmp(c *Ctx) {
 		if vm.clauses[j] == nil {
 			continue
 		}
-		fj := handlerCmp(vm, info, j)
+		fj := sem.facts(vm, j)
 		pf := facts[plain]
 		key := "jump-sibling:" + j
 		if fj == nil || pf == nil {
 			continue
 		}
 		if len(fj.problems) > 0 {
-			c.bad(key, vm.clauses[j].Pos(), "%s: %s", j, strings.Join(fj.problems, "; "))
+			c.bad(key, posOfOp(j), "%s: %s", j, strings.Join(fj.problems, "; "))
 		} else if fj.strOp != pf.strOp || fj.numOp != pf.numOp {
-			c.bad(key, vm.clauses[j].Pos(), "%s applies %q/%q but its sibling %s applies %q/%q", j, fj.strOp, fj.numOp, plain, pf.strOp, pf.numOp)
+			c.bad(key, posOfOp(j), "%s applies %q/%q but its sibling %s applies %q/%q", j, fj.strOp, fj.numOp, plain, pf.strOp, pf.numOp)
 		} else {
-			c.ok(key, vm.clauses[j].Pos(), "%s computes the same predicate as %s", j, plain)
+			c.ok(key, posOfOp(j), "%s computes the same predicate as %s", j, plain)
 		}
 	}
 }
